@@ -133,5 +133,36 @@ class C05:
         rep.check("C05.V9", "resolve_conflict|winner-bytes", rc, ok, "the winner handle is what gets uploaded", "the upload over the loser does not send the winning handle", nontrivial=False)
 
 
+    def v10(self):
+        rep, ctx = self.rep, self.ctx
+        rep.rule("C05.V10", "the bytes shown to the resolver are the side's CURRENT content: every handle's temp file is re-keyed by make_temp_file "
+                 "(name = f(path, current hash), C10.T7) unconditionally before the ResolveFile is built; a same-content check compares hashes of one side", expect_min=2)
+        g = ctx.prog.functions.get("cloudsync.sync.manager.SyncManager.__resolve_file_likes.<locals>.Guard.__enter__")
+        if g is None:
+            raise AnalysisError("Guard.__enter__ of __resolve_file_likes vanished")
+        cfgg = ctx.cfg(g)
+        mk = [n for n in cfgg.nodes if node_has_call(n, "self.make_temp_file($S)")]
+        rf = [n for n in cfgg.nodes if node_has_call(n, "ResolveFile($$$)")]
+        if not rf:
+            raise AnalysisError("Guard.__enter__: ResolveFile construction not found")
+        loops = [n for n in cfgg.nodes if n.kind == "iter"]
+        starts = [b for lp in loops for (b, l) in cfgg.succ[lp.id] if l == "T"] or [cfgg.entry.id]
+        pth = cfgg.reach(starts, lambda n: n in rf, avoid=lambda n: n in mk, follow=NORMAL, include_src=True)
+        rep.check("C05.V10", "Guard.__enter__|fresh-temp", g, bool(mk) and pth is None, "make_temp_file(ss) before every ResolveFile(ss, ..)",
+                  "a handle can be built on a temp file left over from an earlier attempt (make_temp_file skipped): the resolver is shown stale bytes",
+                  witness=describe_path(pth) if pth else None)
+        from sa.sides import SideAnalysis, show
+        sa_ = SideAnalysis(ctx)
+        hs = ctx.prog.func("SyncManager.handle_split_conflict")
+        obs = [o for o in sa_.obligations(hs) if o.kind == "compare" and "hash" in o.what]
+        if not obs:
+            raise AnalysisError("handle_split_conflict: hash comparison not found")
+        for o in obs:
+            rep.check("C05.V10", "handle_split_conflict|" + o.what[:50], ctx.line(hs, o.node), o.decided and not o.violated, "%s: one side (%s)" % (o.what, show(o.actual)),
+                      "%s: hash of side %s compared with hash of side %s - identical content is not recognised (the resolver is called for equal files)" % (o.what, show(o.required), show(o.actual)))
+
+
 def run(ctx: Ctx, rep: Report, tier: str):
-    C05(ctx, rep).run()
+    c = C05(ctx, rep)
+    c.run()
+    c.v10()
